@@ -2563,3 +2563,39 @@ Proof.
   apply rbind_ok in H as (bv & Hbv & H). cbn [wf_cell] in Hwf. unfold wf in Hwf. apply andb_true_iff in Hwf as [Hwt Hwv].
   rewrite (fixed_complete_all t true v bv Hwt Hwv Hk Hbv (ser_sized_bound _ _ _ Hwv Hbv)). exact H.
 Qed.
+
+Lemma is_nil_app_false_inv {A} (l : list A) : is_nil l = true -> l = [].
+Proof. destruct l; [reflexivity|discriminate]. Qed.
+
+(* the three domain exclusions of [wf], for EVERY excluded value: accepted by the writer (whenever
+   it answers Ok), and the reader's answer *)
+Lemma outside_ascii_all v ws b :
+  rust_native NAscii v = true -> domain_excl NAscii v = true ->
+  ser_value ws (TNative NAscii) v = Ok b -> deser_value (TNative NAscii) b = Err DE_ExpectedAscii.
+Proof.
+  intros _ Hd Hs. rewrite deser_value_eq. cbn [is_string_type negb]. rewrite andb_false_r.
+  destruct v; cbn [domain_excl] in Hd; try discriminate Hd; cbn [ser_value] in Hs;
+    apply set_value_ok in Hs as [-> _]; cbn [deser_native]; rewrite Hd; reflexivity.
+Qed.
+
+Lemma outside_time_all v ws b :
+  rust_native NTime v = true -> domain_excl NTime v = true ->
+  ser_value ws (TNative NTime) v = Ok b -> deser_value (TNative NTime) b = Err DE_ValueOverflow.
+Proof.
+  intros Hr Hd Hs. destruct v; cbn [domain_excl rust_native] in *; try discriminate Hd.
+  cbn [ser_value] in Hs. inv Hs. rewrite deser_value_eq.
+  assert (is_nil (enc_signed 8 z) = false) as ->.
+  { pose proof (enc_signed_length 8 z) as L. destruct (enc_signed 8 z); [discriminate L|reflexivity]. }
+  cbn [andb deser_native]. rewrite exact_len_ok by apply enc_signed_length.
+  rewrite (dec_enc_signed_k 8 64) by (lia || assumption).
+  apply negb_true_iff in Hd. rewrite Hd. reflexivity.
+Qed.
+
+Lemma outside_varint_all v ws b :
+  rust_native NVarint v = true -> domain_excl NVarint v = true ->
+  ser_value ws (TNative NVarint) v = Ok b -> b = [] /\ deser_value (TNative NVarint) b = Ok CEmpty.
+Proof.
+  intros _ Hd Hs. destruct v; cbn [domain_excl] in Hd; try discriminate Hd.
+  apply is_nil_app_false_inv in Hd. subst raw. cbn [ser_value] in Hs. apply set_value_ok in Hs as [-> _].
+  split; reflexivity.
+Qed.
